@@ -2,4 +2,6 @@ pub mod compile;
 pub mod drawhist;
 pub mod histmodels;
 pub mod ift;
+pub mod images;
+pub mod paintmon;
 pub mod sched;
